@@ -1065,6 +1065,8 @@ class TransportLayerLogic:
                         self.active_send_request.complete(True)
                     else:
                         size_on_first_byte = (self.active_send_request.generator.remaining_size() + len(self.address.get_tx_payload_prefix())) <= 7
+                        if self.params.tx_data_min_length is not None and self.params.tx_data_min_length > 8:
+                            size_on_first_byte = False  # Frame will be padded above 8 bytes (CAN_DL > 8). Escape sequence is mandatory
                         size_offset = 1 if size_on_first_byte else 2
 
                         try:
